@@ -30,6 +30,12 @@ def build_trigger(tr, rec, tag):
     kw = {"tag": tag, "k": 7}
     k = tr["k"]
 
+    def at(t):
+        """the bar grid is minutely and to_minute() documents "just set its second to 0": a time given with seconds / microseconds
+        denotes its minute - every third time is passed with a sub-minute part"""
+        m = minute(t)
+        return m + timedelta(seconds=(t * 7) % 59 + 1, microseconds=(t * 13) % 999 + 1) if t % 3 == 1 else m
+
     def order(xs, key=None):
         """the spec's parameters are SETS (of times, ranges, periods); the API takes lists - the order in which a set is listed
         must not matter, so it is varied deterministically: ascending, descending, rotated"""
@@ -37,13 +43,13 @@ def build_trigger(tr, rec, tag):
         v = (len(xs) + sum((key(x) if key else x) for x in xs)) % 3
         return xs if v == 0 else xs[::-1] if v == 1 else xs[1:] + xs[:1]
     if k == "at":
-        return AtTimeTrigger(minute(tr["t"]), do, **kw)
+        return AtTimeTrigger(at(tr["t"]), do, **kw)
     if k == "ats":
-        return AtTimesTrigger([minute(t) for t in order(tr["ts"])], do, **kw)
+        return AtTimesTrigger([at(t) for t in order(tr["ts"])], do, **kw)
     if k == "range":
-        return TimeRangeTrigger(TimeRange(minute(tr["a"]), minute(tr["b"])), do, **kw)
+        return TimeRangeTrigger(TimeRange(at(tr["a"]), at(tr["b"])), do, **kw)
     if k == "ranges":
-        return TimeRangesTrigger([TimeRange(minute(r["a"]), minute(r["b"])) for r in order(tr["rs"], key=lambda r: r["a"] * 1000 + r["b"])], do, **kw)
+        return TimeRangesTrigger([TimeRange(at(r["a"]), at(r["b"])) for r in order(tr["rs"], key=lambda r: r["a"] * 1000 + r["b"])], do, **kw)
     if k == "period":
         return PeriodTrigger(timedelta(minutes=tr["d"]), do, trigger_immediately=tr["imm"],
                              pending=timedelta(minutes=tr["p"]), **kw)
